@@ -24,7 +24,8 @@ type gVal struct {
 	sub *gObj
 }
 
-var c12Keys = []string{"k", "v", "name", "ক", "n2", "z"}
+// the last key contains U+09DF, whose NFC form is two code points: printing normalises it, storage must not
+var c12Keys = []string{"k", "v", "name", "ক", "n2", "ব\u09dfস"}
 
 type c12Gen struct {
 	pick   func(string, int) int
